@@ -209,6 +209,8 @@ def processStep (st : DState) (si : StepIn) : DState × String := Id.run do
   -- C10: the pool messages of a response are exactly the recorded fees that leave the records
   if (io.ok || !io.msgs.isEmpty) && si.fault.isNone then
     if !oracle10m cur si.op (sortCodes (io.msgs.map implMsgCode)) then orc := orc ++ ["o10m"]
+    -- C13: a recorded fee is paid in the denomination it was recorded in, whatever is in force now
+    if !oracle13r cur si.op (sortCodes (io.msgs.map implMsgCode)) then orc := orc ++ ["o13r"]
     -- a pool message that does not decode / names another depositor (the chain rejects it)
     if io.msgs.any (fun m => match m with | .pool false _ _ => true | .pool true d _ => d != cur.self | _ => false) then
       orc := orc ++ ["o10d"]
